@@ -156,6 +156,9 @@ def posmc_spaces(prop, tier):
             sig(s, 8 if q else 16)
         for s in DOUBLE_CHECK[:3]:
             sig(s, 2)
+        # en-passant capture as (nearly) the only reply to a check: mate / stalemate answers depend on it
+        for s in (["KRPkp;files=5;ep=cap", "KPkpr;files=5;ep=cap"] if q else ["KRPkp;ep=cap", "KPkpr;ep=cap", "KQPkp;ep=cap", "KPkpq;ep=cap", "KPPkp;ep=cap", "KPkpp;ep=cap"]):
+            sig(s, 8 if q else 16)
         for name, (fen, dq, dt) in ARENAS.items():
             jobs.append(["games|%s|%d" % (fen, dq if q else dt)])
         # histories around and beyond the 800-entry history ring: full trees (depth 2-3) and
